@@ -1206,9 +1206,8 @@ func refSetHasElement(a []cty.Value) Ref {
 	if !a[0].Type().IsSetType() {
 		return bad("not a set")
 	}
-	if a[0].Type().ElementType().HasDynamicTypes() || a[1].Type().HasDynamicTypes() {
-		return skip("dynamic parts in the element type")
-	}
+	// (dynamic parts in the element type are asserted too since F-153: the arguments are wholly known, so a type
+	// that differs is a value that differs, and a set(dynamic) can only hold untyped nulls)
 	if !a[0].Type().ElementType().Equals(a[1].Type()) {
 		return boolRef(false).cl("element-of-another-type")
 	}
